@@ -26,7 +26,8 @@ SInits == { [bu |-> 0, bb |-> 0, pages |-> 1, memmax |-> 65536, sizes |-> SSizes
             [bu |-> 139264, bb |-> 1, pages |-> 17, memmax |-> 65536, sizes |-> SSizes, fw |-> 24, iw |-> 1] }
 
 (* P: sizes around every power of two up to 32 MiB +- 1, growth of the memory *)
-PSizes == UNION {{2 ^ k - 1, 2 ^ k, 2 ^ k + 1} : k \in 3..25} \cup {33554433, 50000000, 2147483647}
+PSizes == UNION {{2 ^ k - 1, 2 ^ k, 2 ^ k + 1} : k \in 3..25} \cup {33554433, 50000000, 2147483647,
+            -2147483647 - 1, -2147483647, -1073741824, -8, -1}   \* 2^31, 2^31+1, 3*2^30, 2^32-8, 2^32-1 (seed C28c)
 PInits == { [bu |-> 0, bb |-> 0, pages |-> 1, memmax |-> 65536, sizes |-> PSizes, fw |-> 20, iw |-> 1],
             [bu |-> 16, bb |-> 3, pages |-> 3, memmax |-> 65536, sizes |-> PSizes, fw |-> 20, iw |-> 1],
             [bu |-> 2048, bb |-> 0, pages |-> 20, memmax |-> 40000, sizes |-> PSizes, fw |-> 20, iw |-> 1] }
